@@ -215,6 +215,19 @@ impl InputList {
         Ok(Self { events })
     }
 
+    /// Convert to an `OutputList` which reproduces these events exactly as they
+    /// were read (no normalisation of attributes, classes or whitespace).
+    /// Used for 'real' SVG content, which must pass through unchanged.
+    pub fn into_verbatim_output(self) -> OutputList {
+        OutputList {
+            events: self
+                .events
+                .into_iter()
+                .map(|ev| OutputEvent::Other(ev.event))
+                .collect(),
+        }
+    }
+
     pub fn slice(&self, start: usize, end: usize) -> Self {
         Self {
             events: self.events[start..end].to_vec(),
